@@ -93,16 +93,19 @@ Qed.
 (** * config_inherit *)
 Lemma config_node_unfold : forall pcfg k n p ks kids,
   config_node pcfg (ENode k n p ks kids) =
-  match eff_config pcfg (p_config p) with
+  match (if is_datadef k then eff_config pcfg (p_config p) else Some true) with
   | None => None
   | Some c =>
       match config_kids c kids with
       | None => None
-      | Some kids' => if keys_ok k ks kids then Some (ENode k n (set_config p c) ks kids') else None
+      | Some kids' =>
+          if keys_ok k ks kids && members_ok k kids
+          then Some (ENode k n (if is_datadef k then set_config p c else p) ks kids') else None
       end
   end.
 Proof.
-  intros. cbn [config_node]. destruct (eff_config pcfg (p_config p)) as [c|]; [|reflexivity].
+  intros. cbn [config_node].
+  destruct (if is_datadef k then eff_config pcfg (p_config p) else Some true) as [c|]; [|reflexivity].
   replace ((fix go (l : list enode) : option (list enode) :=
               match l with
               | [] => Some []
@@ -129,15 +132,19 @@ Proof.
   destruct (config_kids pcfg tl) as [tl'|] eqn:Ht; try discriminate.
   inversion Hc; subst l'; clear Hc.
   destruct x as [k n p ks kids]. rewrite config_node_unfold in Hx.
-  destruct (eff_config pcfg (p_config p)) as [c0|] eqn:He; try discriminate.
+  destruct (if is_datadef k then eff_config pcfg (p_config p) else Some true) as [c0|] eqn:He;
+    try discriminate.
   destruct (config_kids c0 kids) as [kids'|] eqn:Hk; try discriminate.
-  destruct (keys_ok k ks kids); try discriminate. inversion Hx; subst x'; clear Hx.
-  apply eff_config_val in He.
+  destruct (keys_ok k ks kids && members_ok k kids); try discriminate.
+  inversion Hx; subst x'; clear Hx.
   cbn [nearest_stated find e_name] in Hn. cbn [node_at find e_name].
   destruct (text_eqb n seg) eqn:Hs.
-  - cbn [e_props e_kids] in *. destruct rest as [|seg2 rest'].
-    + inversion Hn; subst. reflexivity.
-    + rewrite <- He in Hn. apply (IH c0 kids kids' c Hk Hn).
+  - cbn [e_props e_kids e_kind] in *. destruct (is_datadef k) eqn:Hd.
+    + apply eff_config_val in He. destruct rest as [|seg2 rest'].
+      * inversion Hn; subst. reflexivity.
+      * rewrite <- He in Hn. apply (IH c0 kids kids' c Hk Hn).
+    + inversion He; subst c0. destruct rest as [|seg2 rest']; [discriminate|].
+      apply (IH true kids kids' c Hk Hn).
   - apply (IHl tl' eq_refl). exact Hn.
 Qed.
 
